@@ -251,8 +251,9 @@ func findRefSegMetaFromTime(a *asset, rep *RepData, time uint64, cfg *ResponseCo
 	}
 	dur := uint32(refRep.Segments[relNr].EndTime - refRep.Segments[relNr].StartTime)
 
-	// Check interval validity
-	segAvailTimeS := float64(refEndTime) / float64(refRep.MediaTimescale)
+	// Check interval validity. Media time is relative to the start time (availabilityStartTime).
+	mediaRef := uint64(cfg.StartTimeS * refRep.MediaTimescale)
+	segAvailTimeS := float64(refEndTime+mediaRef) / float64(refRep.MediaTimescale)
 	nowS := float64(nowMS) * 0.001
 	err := CheckTimeValidity(segAvailTimeS, nowS, float64(*cfg.TimeShiftBufferDepthS), cfg.getAvailabilityTimeOffsetS())
 	if err != nil {
